@@ -39,10 +39,13 @@ def _on_alarm(signum, frame):
 class case_timer:
     """Per-case watchdog (SIGALRM, main thread of the worker)."""
 
+    def __init__(self, factor=1.0):
+        self.factor = factor
+
     def __enter__(self):
         import signal
         self.old = signal.signal(signal.SIGALRM, _on_alarm)
-        signal.setitimer(signal.ITIMER_REAL, CASE_TIMEOUT_S)
+        signal.setitimer(signal.ITIMER_REAL, CASE_TIMEOUT_S * self.factor)
 
     def __exit__(self, *a):
         import signal
@@ -234,8 +237,16 @@ class Ctx:
                     time.time() - state["t0"] > ctx.shrink_cap):
                 raise _Abort("shrinkcap")
             try:
-                with case_timer():
-                    check(ctx, case)
+                try:
+                    with case_timer():
+                        check(ctx, case)
+                except CaseTimeout:
+                    # time alone never decides: the same case is run again
+                    # with six times the budget (a loaded machine or a big
+                    # generated case is not a hang)
+                    ctx.count("slow_case_rerun")
+                    with case_timer(6.0):
+                        check(ctx, case)
             except (UnsatisfiedAssumption, _Abort):
                 raise
             except Exception as exc:   # noqa
